@@ -73,19 +73,30 @@ def oracle_c20_message(sc, g):
     enumerates exactly the visible commands in sorted order; hidden commands never appear"""
     if "meta" not in sc:
         return None
+    hidden_now = {}
     for o, r in zip(sc["ops"], g["ops"]):
+        if o["op"] == "hide":
+            hidden_now[tuple(o["path"])] = o["hidden"]
         if o["op"] != "parse" or r.get("panic"):
             continue
         e = scen.decode_err(r["err"])
         if e is None or e[0] != "F" or e[1] not in (11, 12):
             continue
+        # the command the parser was in: follow the command words of this argument vector (Command.Active is not reset between
+        # parses, so the observed active chain of a later parse may be stale)
         node = sc["meta"]
-        try:
-            for idx in [int(x) for x in r.get("active", "").split(".") if x != ""]:
-                node = node["subs"][idx]
-        except (IndexError, ValueError):
-            continue
-        names = sorted(s2["name"] for s2 in node["subs"] if not s2.get("hidden"))
+        apath = ()
+        for tok in o["args"]:
+            if tok.startswith(b"-") or node["pos"]:
+                break
+            hit = [(i, s2) for i, s2 in enumerate(node["subs"]) if tok == s2["name"] or tok in s2["aliases"]]
+            if not hit:
+                break
+            i, node = hit[-1]
+            apath += (i,)
+        if any(t.startswith(b"-") for t in o["args"]):
+            continue            # options may consume words; keep to plain command lines
+        names = sorted(s2["name"] for i, s2 in enumerate(node["subs"]) if not hidden_now.get(apath + (i,), bool(s2.get("hidden"))))
         if len(set(names)) != len(names):
             continue
         def enum():
